@@ -762,7 +762,12 @@ def where_rows(I, mask):
     def mono(j1, j2):
         if nf == 1:
             return z3.Implies(z3.And(0 <= j1, j1 < j2, j2 < M), fs[0](j1) < fs[0](j2))
-        return z3.BoolVal(True)
+        if nf == 0:
+            return z3.BoolVal(True)
+        # row-major enumeration: the digit tuples are strictly increasing in the lexicographic order
+        c1, c2 = [f(j1) for f in fs], [f(j2) for f in fs]
+        lex = z3.Or([z3.And([c1[k] == c2[k] for k in range(p)] + [c1[p] < c2[p]]) for p in range(nf)])
+        return z3.Implies(z3.And(0 <= j1, j1 < j2, j2 < M), lex)
 
     sel.mono = mono
     # lemma L-pigeonhole (finite sets; stated once in DESIGN.md 6, Lean proof in lemmas/Pigeonhole.lean): the enumeration
@@ -909,6 +914,18 @@ def getitem(I, t, key):
         # a boolean mask may cover several axes
         if not (len(key) == 1 and isinstance(key[0], Tensor)):
             raise IN.RaisedEx("IndexError", "too many indices for tensor", I.ctx.loc)
+    # a boolean mask covering several leading axes: a[mask] = the selected elements in row-major order
+    if len(key) >= 1 and isinstance(key[0], Tensor) and key[0].val.dtype == "bool" and key[0].val.rank > 1 and all(isinstance(k, slice) and k == slice(None) for k in key[1:]):
+        kt = key[0]
+        m_ax = kt.val.rank
+        if m_ax > a.rank or not all(sd.same(ad) for sd, ad in zip(kt.val.shape, a.shape[:m_ax])):
+            raise IN.RaisedEx("IndexError", "The shape of the mask does not match the shape of the indexed tensor", I.ctx.loc)
+        sel = where_rows(I, kt)[0].meta["sel"][0]
+        sel.mask_src = kt
+        rest = a.shape[m_ax:]
+        out = Tensor(STensor([Dim([sel.count])] + rest, lambda idx: a.at(sel.split(sel.comps(idx[0][0] if idx[0] else 0)) + list(idx[1:])), a.dtype))
+        out.meta["gather"] = (t, (sel, sel.count, None))
+        return out
     # tuple of index tensors produced by ONE torch.where call covering the leading axes
     if len(key) >= 2 and all(isinstance(k, Tensor) and "sel" in k.meta for k in key) and all(k.meta["sel"][0] is key[0].meta["sel"][0] for k in key) and [k.meta.get("sel_axis") for k in key] == list(range(len(key))):
         sel, M, off = key[0].meta["sel"]
